@@ -323,12 +323,9 @@ class ModelObserver(Observer):
             new = _new_rows(st.ubefore["client_versions"], st.uafter["client_versions"])
             cv = msg.get("client_version")
             impl, ver = (cv[0], cv[1]) if cv else (None, None)
-            if len(new) != 1:
-                self.mm("blur", "bind wrote %d client_versions rows" % len(new))
-            r = new[0]
-            if (r[0], r[1], r[3], r[4]) != (msg["appid"], msg["side"], impl, ver):
-                self.mm("blur", "client_versions row %r does not describe the bind %r" % (r, msg))
-            self.check_blur("bind", r[2], st.t)
+            # the statement is about the stored connect time only: every row this bind wrote is judged
+            for r in new:
+                self.check_blur("bind", r[2], st.t)
 
     def check_blur(self, path, stored, true_t):
         self.note("usage_time_" + path)
@@ -933,8 +930,7 @@ class ModelObserver(Observer):
             r_app, r_started, r_wait, r_total, r_result = row[:5]
         else:
             r_app, r_fornp, r_started, r_total, r_wait, r_result = row[:6]
-            if bool(r_fornp) != bool(for_np):
-                return False
+            # (for_nameplate is not part of the statement: not judged)
         if r_app != app or r_result != result:
             return False
         if (r_wait is None) != (waiting is None):
